@@ -12,10 +12,12 @@
   both under the explicit codec hypothesis `c.RoundTrips d` (`∃ t, enc d = some t ∧ dec t = some d`).
   For YAML (ruamel.yaml) and TOML (tomli_w/tomllib) that hypothesis is validated by generation only
   (harness/props/c16.py checks it directly on every generated payload; known failure: U+0085).
-  For JSON the printer/parser pair is modelled (`Codec.Json.print/parse`); the general round-trip theorem
-  for it is work in progress (statement kept in `Props/Lemmas/C16_JsonRoundTrip.todo`).
+  For JSON it is DISCHARGED: `json_roundtrip : Json.parse (Json.print d) = .ok d []` for every document
+  of objects with distinct string keys, arrays, strings, ints, bools, null (`Props/Lemmas/C16_Json*.lean`),
+  hence `json_codec_roundtrips` and the hypothesis-free `write_fetch_roundtrip_json`.
 -/
 import Props.Lemmas.C16_Glue
+import Props.Lemmas.C16_JsonRoundTrip
 
 namespace Pypyr.C16
 open Pypyr.Codec
@@ -212,7 +214,41 @@ theorem fetch_scalar_raises_pre_fix :
       = .ok (Ctx.set fctxEx "out" (.int 42)) := by
   decide +kernel
 
-/-! ### JSON: printer/parser model exercised (round-trip theorem: see Props/Lemmas/C16_JsonRoundTrip when present) -/
+/-! ### JSON: the codec hypothesis discharged -/
+
+/-- **json_roundtrip.** For every document of objects with pairwise distinct string keys, arrays,
+    strings, ints, bools and null (floats excluded), parsing what the printer prints gives the
+    document back, with nothing left over. The printer mirrors
+    `json.dump(d, f, indent=2, ensure_ascii=False)`, the parser `json.load` (tied by correspondence). -/
+theorem json_roundtrip (d : Val) (h : Json.isJson false d = true) :
+    Json.parse (Json.print d) = .ok d [] :=
+  Json.parse_print d h
+
+/-- The JSON codec satisfies the hypothesis of the theorems above on its whole (float-free) domain. -/
+theorem json_codec_roundtrips (d : Val) (h : Json.isJson false d = true) : Json.codec.RoundTrips d := by
+  refine ⟨Json.print d, ?_, ?_⟩
+  · simp [Json.codec, Json.isJson_mono d h]
+  · simp [Json.codec, json_roundtrip d h]
+
+/-- **write_fetch_roundtrip for JSON, without hypothesis on the codec.** -/
+theorem write_fetch_roundtrip_json (fuel fuel2 : Nat) (ctx ctx2 : Ctx) (files : Files (List Char))
+    (path : String) (p' : Val) (key : Option Val)
+    (hw : writePayload .json fuel ctx = .ok (path, p')) (hj : Json.isJson false p' = true)
+    (hf : fetchArgs .json fuel2 ctx2 = .ok (path, key)) :
+    ∃ files', fileWrite .json Json.codec fuel ctx files = .ok files' ∧
+      fetch .json Json.codec fuel2 ctx2 files' = store ctx2 key p' :=
+  write_fetch_roundtrip .json Json.codec fuel fuel2 ctx ctx2 files path p' key hw
+    (json_codec_roundtrips p' hj) hf
+
+/-- **fileformat_doc_spec for JSON, without hypothesis on the codec.** -/
+theorem fileformatjson_doc_spec (fuel : Nat) (ctx : Ctx) (src : List Char) (d d' : Val)
+    (hsrc : Json.codec.dec src = some d) (hd : isDoc d = true) (hfmt : fmtDoc fuel ctx d = .ok d')
+    (hj : Json.isJson false d' = true) :
+    ∃ out, fileFormatDoc Json.codec fuel ctx src = .ok out ∧ Json.codec.dec out = some d' ∧ DocMap ctx d d' :=
+  fileformat_doc_spec Json.codec fuel ctx src d d' hsrc hd hfmt (json_codec_roundtrips d' hj)
+
+/-- The hypothesis of `json_roundtrip` holds of the example document, and the round trip computes. -/
+example : Json.isJson false docEx = true := by decide +kernel
 
 example : Json.print docEx =
     "{\n  \"a{k1}\": [\n    \"x{k1}\",\n    \"{k2}\",\n    1,\n    null\n  ],\n  \"true\": \"true\"\n}".toList ∧
